@@ -213,11 +213,11 @@ PROPS["C13"] = {
     "level": "exploration",
     "plan": zb_plan(("release",)),
     "rule": ("valid messages carrying each unknown header field code 10..255 (rotating over 10 payload types; all pairs in thorough, at "
-             "varying array positions), each unknown flag bit (alone and with known ones), each unknown message type: parsed with "
-             "Message::from_bytes (known fields and body must be intact) and placed between normal messages on a scripted connection "
+             "varying array positions), each unknown flag bit (alone and with known ones), all 248 flag bytes with an unknown bit, each unknown message type: parsed with "
+             "Message::from_bytes (known fields and body must be intact, the known flags of the byte must read back as sent) and placed between normal messages on a scripted connection "
              "with random read cuts (all normal messages must still be delivered in order, no error before EOF); distinct = distinct "
              "(kind, code) x schedule"),
-    "gates": {"quick": {"evaluations": 600, "distinct": 300}, "thorough": {"evaluations": 5000, "distinct": 2000}},
+    "gates": {"quick": {"evaluations": 800, "distinct": 500, "known_flag_readbacks": 500}, "thorough": {"evaluations": 5000, "distinct": 2000}},
     "exhaustive_note": "every unknown field code, flag bit and (thorough) message type value is covered at least once",
     "assumptions": ["whether an unknown-type message itself surfaces as a stream item is not judged"],
 }
@@ -243,10 +243,13 @@ PROPS["C15"] = {
     "plan": zb_plan(("release", "tsan", "miri"), miri_scale=0.0),
     "rule": ("storms of 2/4/8/16 OS threads x 6000 (20000 thorough) message builds through three construction paths sharing the "
              "process-wide counter, half of them started (through the cfg(zbus_verif) hook) shortly before the 32-bit wrap so that it "
-             "happens mid-storm, plus the exact single-thread boundary sequence; all serials non-zero, pairwise distinct, and the "
+             "happens mid-storm, plus the exact single-thread boundary sequence, plus a zero-crossing hammer (4-8 persistent threads released together by a spin "
+             "gate 4000 times per shard (40000 thorough), each taking 3 serials, with the counter set to 0, MAX or just below it, so that the skip-zero step "
+             "runs under full contention every round); all serials non-zero, pairwise distinct, and the "
              "multiset exactly the contiguous range from the starting counter value skipping zero; distinct = distinct (storm shape, "
              "number of adjacent serials owned by different threads)"),
-    "gates": {"quick": {"evaluations": 25, "serials_observed": 500000, "interleaving_switches": 10000, "distinct": 10},
+    "gates": {"quick": {"evaluations": 25, "serials_observed": 500000, "interleaving_switches": 10000, "distinct": 10,
+                        "zero_crossings_under_contention": 50000, "hammer_rounds_with_interleaved_threads": 5000},
               "thorough": {"evaluations": 300, "serials_observed": 20000000, "distinct": 100}},
     "assumptions": ["real OS threads: interleavings are whatever the machine produces (contention measured and reported); TSan layer in thorough"],
 }
